@@ -391,6 +391,11 @@ func (v *view) build(st simcore.Step, sender int) []sdk.Msg {
 		if x1%11 == 0 {
 			dur = 100 * time.Second // not one of the lockable durations
 		}
+		if st.Arg(9) == 1 {
+			// superfluid-heavy profile: shares of the superfluid pool, at or above the unbonding time
+			denom = gammtypes.GetPoolShareDenom(1)
+			dur = []time.Duration{sfUnbonding, time.Hour, time.Hour}[x1%3]
+		}
 		amt := bp(v.bal(sender, denom), x2%1500+1)
 		if !amt.IsPositive() {
 			return nil
